@@ -47,4 +47,15 @@ def toUnsigned (a : Int) : Option Int := if a < 0 then none else some a
 /-- `SignedAmount::positive_sub` -/
 def positiveSub (a b : Int) : Option (Option Int) :=
   if a < 0 ∨ b < 0 ∨ b > a then some none else amtChecked true .sub a b
+
+/-! Arithmetic of the same impl outside the list of the property statement (added; hand-modelled). -/
+/-- `SignedAmount::checked_abs` (`self.0.checked_abs().map(SignedAmount)`): `None` exactly at `i64::MIN` -/
+def checkedAbs (a : Int) : Option Int := TyI64.chk (a.natAbs : Int)
+/-- `SignedAmount::abs` (`SignedAmount(self.0.abs())`, a plain `i64::abs`) AS COMPILED WITH OVERFLOW CHECKS (the harness
+profile): panics at `i64::MIN`. In a build without overflow checks the same call returns `i64::MIN` (`absUnchecked`). -/
+def absOp (a : Int) : Res := match checkedAbs a with | some v => .val v | none => .panic
+/-- `i64::abs` without overflow checks: two's-complement wrap of `|a|` -/
+def absUnchecked (a : Int) : Int := TyI64.wrap (a.natAbs : Int)
+/-- `SignedAmount::signum` (`self.0.signum()`) -/
+def signum (a : Int) : Int := if a > 0 then 1 else if a < 0 then -1 else 0
 end Monero
